@@ -12,6 +12,11 @@ write|poke <sid> <field> <val>           → ok
 append <sid> <field> <elem>              → ok
 setitem <sid> <field> <key> <atom>       → ok
 push <sid> <entry>                       → ok
+hold <sid> <field>                       → ok      the producer takes `ref = share[field]` (reference number = order)
+happend <i> <elem> | hsetitem <i> <k> <atom>   → ok      `ref.append(e)` / `ref[k] = a` through reference i
+hpush <sid> <entry>                      → ok      `dk.append(e)` through a held `dk = share.deck`
+probe                                    → - | <is>:<len>,…   per reference: `ref is share[field]`, `len(ref)`
+dprobe <sid>                             → <is>:<len>        of a held `share.deck`
 ctl ready|start|run|stop|abort           → ok | ERR <PythonExceptionName>
 dump <i>                                 → absent | file lines joined by the two characters \n
 region D12                               → in | out
@@ -163,6 +168,18 @@ def errName : Err → String
 
 /-! the D12 region: a write to a loggee of an update log that already logged at this store stamp -/
 
+def valLen : Val → String
+  | .list l => toString l.length
+  | .dict _ d => toString d.length
+  | _ => "x"
+
+/-- `<ref is share[f]>:<len(ref)>` of a held reference -/
+def showHeld (w : World) (h : Held) : String :=
+  if h.void then "void" else
+  match h.orphan with
+  | some v => "0:" ++ valLen v
+  | none => "1:" ++ (match dget (w.shares h.sid).data h.f with | some v => valLen v | none => "x")
+
 structure St where
   init : Sys := {}
   ops : List Op := []      -- reversed
@@ -218,6 +235,28 @@ def step (st : St) (line : String) : St × String :=
     match sid.toNat?, parseAtom a with
     | some s, some x => doOp st (.w (.setitem s f k x))
     | _, _ => (st, "bad-op")
+  | ["hold", sid, f] =>
+    match sid.toNat? with
+    | some s => doOp st (.w (.hold s f))
+    | none => (st, "bad-op")
+  | ["happend", i, a] =>
+    match i.toNat?, parseElem a with
+    | some n, some x => doOp st (.w (.happend n x))
+    | _, _ => (st, "bad-op")
+  | ["hsetitem", i, k, a] =>
+    match i.toNat?, parseAtom a with
+    | some n, some x => doOp st (.w (.hsetitem n k x))
+    | _, _ => (st, "bad-op")
+  | ["hpush", sid, e] =>
+    match sid.toNat?, parseEntry e with
+    | some s, some x => doOp st (.w (.hpush s x))
+    | _, _ => (st, "bad-op")
+  | ["probe"] =>
+    (st, if st.cur.world.held.isEmpty then "-" else ",".intercalate (st.cur.world.held.map (showHeld st.cur.world)))
+  | ["dprobe", sid] =>
+    match sid.toNat? with
+    | some s => (st, "1:" ++ toString (st.cur.world.shares s).deck.length)
+    | none => (st, "bad-op")
   | ["push", sid, e] =>
     match sid.toNat?, parseEntry e with
     | some s, some x => doOp st (.w (.push s x))
